@@ -54,6 +54,9 @@ REL = "operon_ai/state/telomere.py"
 PUBLIC = ["start", "tick", "record_error", "heartbeat", "check_timeouts", "renew", "trigger_apoptosis", "terminate",
           "reset"]
 FIXED = {"tick": ["nat"], "renew": ["onat", "bool"], "trigger_apoptosis": ["str"]}
+# read-only accessors translated as pure helpers (`Tr.is_active cfg s evs : State × List Ev × Bool`); when one leaves the subset
+# it is simply not emitted and its agreement theorem does not elaborate (fail closed)
+ACCESSORS = ["is_active", "is_operational"]
 
 FIELDS = {
     "_phase": ("phase", "phase"), "_telomere_length": ("length", "int"), "_error_count": ("errors", "nat"),
@@ -927,6 +930,16 @@ def render(src: str, mod=None) -> tuple[str, dict]:
         except RecursionError:
             info["unsupported"][m] = "recursion"
             tr.done[m] = {"error": "recursion", "own": True}
+    for m in ACCESSORS:
+        try:
+            d_ = tr.info(m)
+            if not d_["pure"] or d_["params"] or d_["rtype"] != "bool":
+                tr.done[m] = {"error": "accessor is not a pure parameterless predicate", "own": True}
+        except Unsupported as e:
+            info["unsupported"][m] = str(e)
+        except RecursionError:
+            info["unsupported"][m] = "recursion"
+            tr.done[m] = {"error": "recursion", "own": True}
     for name, d in tr.done.items():
         if "error" in d:
             info["unsupported"].setdefault(name, d["error"])
@@ -942,7 +955,7 @@ def render(src: str, mod=None) -> tuple[str, dict]:
             for c in sorted(d["calls"]):
                 visit(c)
         order.append(m)
-    for m in PUBLIC:
+    for m in PUBLIC + ACCESSORS:
         visit(m)
     names = {}
     out = HEAD
